@@ -1,6 +1,7 @@
 package np
 
 import (
+	"go/token"
 	"sort"
 	"strings"
 
@@ -10,12 +11,13 @@ import (
 func init() { register("C19", propC19) }
 
 func propC19(c *Ctx) {
-	c.Explanation = "That a blocking Fetch never sleeps forever and returns only asserted wakers quantifies over interleavings of the algorithm's atomic operations (and, on amd64, over an assembly routine the Go analysis cannot see); that is NOT decided. Decided are the structural necessary conditions of the published algorithm: (Z1) Sleeper.sharedList, Sleeper.waitingG and Waker.s are touched only through sync/atomic (waitingG's address additionally goes to gopark for the commit), and the plain fields localList/allWakers/next/allWakersNext/id only inside the sleeper-side functions that own them; (Z2) gopark is reached only when block is true, Assert/Clear/IsAsserted/AddWaker/enqueueAssertedWaker contain no blocking operation, nextWaker's only blocking operation is that gopark; (Z3) the exact protocol tables of enqueueAssertedWaker, nextWaker, Fetch, Assert, Clear, IsAsserted, AddWaker, Done (which atomic operation, on which word, with which operands, under which conditions) incl. Fetch returns an id only when the swapped-out state was the asserted marker, Assert enqueues only when the previous state was a real sleeper, goready only after a successful CAS of waitingG from a value that is neither 0 nor preparingG; (Z4) the orderings the algorithm's correctness argument uses: the waker publishes itself on sharedList BEFORE it looks at waitingG (every load of waitingG in enqueueAssertedWaker is dominated by the successful push), w.next is written before the publishing CAS, and the sleeper stores preparingG BEFORE it re-checks sharedList BEFORE it parks; after waking it loops to re-check. (Z5, non-amd64 build only) commitSleep's table. (Z5a) on amd64 the assembly of commitSleep is read as an instruction list: one LOCK CMPXCHGQ on waitingG, expected value preparingG loaded before, result from the exchange's flags. (Z6) package sleep converts no word or id to a narrower type. NOT decided: the interleaving argument itself, Done racing with Assert, the amd64 assembly commitSleep."
+	c.Explanation = "That a blocking Fetch never sleeps forever and returns only asserted wakers quantifies over interleavings of the algorithm's atomic operations (and, on amd64, over an assembly routine the Go analysis cannot see); that is NOT decided. Decided are the structural necessary conditions of the published algorithm: (Z1) Sleeper.sharedList, Sleeper.waitingG and Waker.s are touched only through sync/atomic (waitingG's address additionally goes to gopark for the commit), and the plain fields localList/allWakers/next/allWakersNext/id only inside the sleeper-side functions that own them; (Z2) gopark is reached only when block is true, Assert/Clear/IsAsserted/AddWaker/enqueueAssertedWaker contain no blocking operation, nextWaker's only blocking operation is that gopark; (Z3) the exact protocol tables of enqueueAssertedWaker, nextWaker, Fetch, Assert, Clear, IsAsserted, AddWaker, Done (which atomic operation, on which word, with which operands, under which conditions) incl. Fetch returns an id only when the swapped-out state was the asserted marker, Assert enqueues only when the previous state was a real sleeper, goready only after a successful CAS of waitingG from a value that is neither 0 nor preparingG; (Z4) the orderings the algorithm's correctness argument uses: the waker publishes itself on sharedList BEFORE it looks at waitingG (every load of waitingG in enqueueAssertedWaker is dominated by the successful push), w.next is written before the publishing CAS, and the sleeper stores preparingG BEFORE it re-checks sharedList BEFORE it parks; after waking it loops to re-check. (Z5, non-amd64 build only) commitSleep's table. (Z5a) on amd64 the assembly of commitSleep is read as an instruction list: one LOCK CMPXCHGQ on waitingG, expected value preparingG loaded before, result from the exchange's flags. (Z6) package sleep converts no word or id to a narrower type. (Z7) Done reads a waker's allWakersNext before re-using that link for the pending list: no load of the cursor's link is reachable from the store that overwrites it until the cursor has moved on. NOT decided: the interleaving argument itself, Done racing with Assert, the amd64 assembly commitSleep."
 	sl, wk := "(*sleep.Sleeper).", "(*sleep.Waker)."
 	as := "sleep.assertedSleeper"
 	uas := "sleep.usleeper(" + as + ")"
 
 	c.NoNewNarrowing(c.Rule("Z6", "K8 narrowing (closed world, reviewed table)", "package sleep converts no word or id to a narrower type", 2), []string{"/pkg/sleep"}, nil)
+	noStaleCursorRule(c, c.Rule("Z7", "K2 reach-avoiding (link typestate)", "Done reads a waker's allWakersNext link before it re-uses that link to thread the waker onto the pending list: the walk over allWakers visits every waker", 1), "(*sleep.Sleeper).Done", "sleep.Waker", "allWakersNext")
 	z1 := c.Rule("Z1", "K3 access confinement", "shared words only through sync/atomic; plain fields only in their owners", 20)
 	c.AtomicOnly(z1, "sleep.Sleeper", "sharedList", nil)
 	c.AtomicOnly(z1, "sleep.Sleeper", "waitingG", nil, "sleep.gopark")
@@ -308,4 +310,39 @@ func asmInstrs(src string) []string {
 		out = append(out, l)
 	}
 	return out
+}
+
+// noStaleCursorRule: within fn, after a store to x.field no load of the same
+// x.field is reachable before x is re-defined (x is the loop cursor, a phi at
+// the loop header): a list walk that re-uses the element's link field inside
+// the loop body must have read the successor first.
+func noStaleCursorRule(c *Ctx, rule, fnName, typ, field string) {
+	fn := c.Fn(rule, fnName)
+	if fn == nil {
+		return
+	}
+	for _, st := range StoresTo(fn, typ, field) {
+		fa, ok := st.Addr.(*ssa.FieldAddr)
+		if !ok {
+			continue
+		}
+		base := fa.X
+		var hdr *ssa.BasicBlock
+		if phi, ok := base.(*ssa.Phi); ok {
+			hdr = phi.Block()
+		}
+		bad := ReachAvoiding(fn, st, func(in ssa.Instruction) bool { return hdr != nil && in.Block() == hdr }, func(in ssa.Instruction) bool {
+			u, ok := in.(*ssa.UnOp)
+			if !ok || u.Op != token.MUL {
+				return false
+			}
+			fa2, ok := u.X.(*ssa.FieldAddr)
+			return ok && fa2.X == base && fa2.Field == fa.Field
+		})
+		pos := ""
+		if bad != nil {
+			pos = c.pos(bad)
+		}
+		c.Check(bad == nil, rule, fnName+"/link-read-after-relink:"+Term(st.Addr), c.pos(st), "the link is not read again after it was overwritten, until the cursor moves on", "the cursor's "+field+" link is read at "+pos+" after this store overwrote it: the walk follows the new list, not the one being traversed")
+	}
 }
